@@ -683,6 +683,61 @@ struct ProjSpec {
 }
 
 /// a random string in the code page together with its Unicode text, from tables written here (not encoding_rs)
+const CP1252_80: [u32; 32] = [
+    0x20AC, 0x0081, 0x201A, 0x0192, 0x201E, 0x2026, 0x2020, 0x2021, 0x02C6, 0x2030, 0x0160, 0x2039, 0x0152, 0x008D, 0x017D, 0x008F,
+    0x0090, 0x2018, 0x2019, 0x201C, 0x201D, 0x2022, 0x2013, 0x2014, 0x02DC, 0x2122, 0x0161, 0x203A, 0x0153, 0x009D, 0x017E, 0x0178,
+];
+const CP1251_80: [u32; 64] = [
+    0x0402, 0x0403, 0x201A, 0x0453, 0x201E, 0x2026, 0x2020, 0x2021, 0x20AC, 0x2030, 0x0409, 0x2039, 0x040A, 0x040C, 0x040B, 0x040F,
+    0x0452, 0x2018, 0x2019, 0x201C, 0x201D, 0x2022, 0x2013, 0x2014, 0x0098, 0x2122, 0x0459, 0x203A, 0x045A, 0x045C, 0x045B, 0x045F,
+    0x00A0, 0x040E, 0x045E, 0x0408, 0x00A4, 0x0490, 0x00A6, 0x00A7, 0x0401, 0x00A9, 0x0404, 0x00AB, 0x00AC, 0x00AD, 0x00AE, 0x0407,
+    0x00B0, 0x00B1, 0x0406, 0x0456, 0x0491, 0x00B5, 0x00B6, 0x00B7, 0x0451, 0x2116, 0x0454, 0x00BB, 0x0458, 0x0405, 0x0455, 0x0457,
+];
+
+/// the character a single byte >= 0x80 stands for in a code page (tables written here from the code page
+/// definitions, independent of encoding_rs); 932: the single-byte half-width katakana range only
+fn hi_char(cp: u16, b: u8) -> char {
+    let u = match cp {
+        1252 => if b < 0xA0 { CP1252_80[(b - 0x80) as usize] } else { b as u32 },
+        1251 => if b < 0xC0 { CP1251_80[(b - 0x80) as usize] } else { 0x0410 + (b as u32 - 0xC0) },
+        932 => 0xFF61 + (b as u32 - 0xA1),
+        _ => unreachable!(),
+    };
+    char::from_u32(u).unwrap()
+}
+
+thread_local! {
+    /// 0: special characters are a mixture (ordinary high bytes and UTF-8 look-alikes); 1: look-alikes only, so
+    /// that a whole string is well-formed UTF-8 although the code page is not UTF-8
+    static UTF8_STYLE: std::cell::Cell<u8> = const { std::cell::Cell::new(0) };
+}
+
+/// bytes >= 0x80 that form a WELL-FORMED UTF-8 sequence and are at the same time ordinary text of the (non-UTF-8)
+/// code page: cp1252 `C3 A9` = "Ã©", cp1251 `D0 96` = "Р–", cp932 `C2 A9` = two half-width katakana
+fn utf8_lookalike(cp: u16, rng: &mut Rng) -> (Vec<u8>, String) {
+    let cont = |rng: &mut Rng| -> u8 {
+        loop {
+            let c = match cp {
+                932 => rng.range(0xA1, 0xBF) as u8,
+                _ => rng.range(0x80, 0xBF) as u8,
+            };
+            // bytes without a character in the code page (mapped to C1 controls) are left out
+            if (cp == 1252 && [0x81u8, 0x8D, 0x8F, 0x90, 0x9D].contains(&c)) || (cp == 1251 && c == 0x98) {
+                continue;
+            }
+            return c;
+        }
+    };
+    let bytes: Vec<u8> = if cp != 932 && rng.chance(1, 3) {
+        vec![rng.range(0xE1, 0xEC) as u8, cont(rng), cont(rng)]
+    } else {
+        vec![rng.range(0xC2, 0xDF) as u8, cont(rng)]
+    };
+    debug_assert!(std::str::from_utf8(&bytes).is_ok());
+    let text: String = bytes.iter().map(|b| hi_char(cp, *b)).collect();
+    (bytes, text)
+}
+
 fn cp_string(cp: u16, len: usize, ascii_only: bool, rng: &mut Rng) -> (Vec<u8>, String) {
     let mut b = vec![];
     let mut s = String::new();
@@ -692,6 +747,12 @@ fn cp_string(cp: u16, len: usize, ascii_only: bool, rng: &mut Rng) -> (Vec<u8>, 
             let c = *rng.pick(b"ABCDEFGHIJKLMNOPQRSTUVWXYZabcdefghijklmnopqrstuvwxyz0123456789_");
             b.push(c);
             s.push(c as char);
+            continue;
+        }
+        if matches!(cp, 1252 | 1251 | 932) && (UTF8_STYLE.with(|c| c.get()) == 1 || rng.chance(1, 3)) {
+            let (x, t) = utf8_lookalike(cp, rng);
+            b.extend(x);
+            s.push_str(&t);
             continue;
         }
         match cp {
@@ -879,6 +940,9 @@ fn gen_project(rng: &mut Rng) -> ProjSpec {
     let nrefs = rng.below(5) as usize;
     let mut mods: Vec<ModSpec> = vec![];
     let ascii_names = rng.chance(1, 2); // ASCII stream names: the composed model (projfile) applies
+    // one project in three: every non-ASCII piece is a UTF-8 look-alike, so whole names / module texts are
+    // well-formed UTF-8 while the code page is not UTF-8 (seeded change C18-m7: an `is valid UTF-8` shortcut)
+    UTF8_STYLE.with(|c| c.set(if rng.chance(1, 3) { 1 } else { 0 }));
     while mods.len() < nmods {
         let name = cp_string(cp, rng.range(1, 10) as usize, ascii_names, rng);
         if mods.iter().any(|m| m.name.1 == name.1) || name.1.encode_utf16().count() > 31 {
@@ -1117,6 +1181,35 @@ fn corpus_projects() -> Vec<(&'static str, ProjSpec)> {
                 mods: vec![module(s(&[0xEF, 0xBB, 0xBF, 0x4D], "\u{FEFF}M"), s(&[0xEF, 0xBB, 0xBF, 0x41, 0xC3, 0xA9], "\u{FEFF}Aé"))],
             },
         ),
+        // module text / names with bytes >= 0x80 that are well-formed UTF-8 under a non-UTF-8 code page: they must be
+        // decoded with the code page (seeded change C18-m7: a `from_utf8` shortcut in get_module)
+        (
+            "utf8-lookalike-1252",
+            ProjSpec {
+                cp: 1252,
+                compat: false,
+                refs: vec![RefSpec { name: s(&[0xC3, 0xA9, 0x52], "Ã©R"), kind: 0, desc: s(b"d", "d"), path: s(b"C:\\p", "C:\\p") }],
+                mods: vec![module(s(&[0x4D, 0xC3, 0xA9], "MÃ©"), s(&[0x78, 0x20, 0xC3, 0xA9, 0x20, 0xE2, 0x82, 0xAC], "x Ã© â‚¬"))],
+            },
+        ),
+        (
+            "utf8-lookalike-932",
+            ProjSpec {
+                cp: 932,
+                compat: false,
+                refs: vec![],
+                mods: vec![module(s(b"M", "M"), s(&[0x78, 0xC2, 0xA9], "xﾂｩ"))],
+            },
+        ),
+        (
+            "utf8-lookalike-1251",
+            ProjSpec {
+                cp: 1251,
+                compat: true,
+                refs: vec![],
+                mods: vec![module(s(&[0xD0, 0x96], "Р–"), s(&[0xD0, 0x96, 0x0D, 0x0A], "Р–\r\n"))],
+            },
+        ),
         (
             "own-bom-1200",
             ProjSpec {
@@ -1159,6 +1252,11 @@ fn run_project_spec(cx: &mut Ctx, p: &ProjSpec, label: &str, rng: &mut Rng) {
         expect_proj.push_str(&format!("M[{}|{}|{}]", m.name.1, digest(&m.text.0), digest(m.text.1.as_bytes())));
     }
     cx.rep.count(&format!("project:codepage:{}", p.cp));
+    for m in &p.mods {
+        if p.cp != 65001 && p.cp != 1200 && !m.text.0.is_ascii() {
+            cx.rep.count(if std::str::from_utf8(&m.text.0).is_ok() { "project:module-text:high-bytes-wellformed-utf8" } else { "project:module-text:high-bytes-not-utf8" });
+        }
+    }
     cx.rep.count(&format!("project:modules:{}", p.mods.len()));
     for r in &p.refs {
         cx.rep.count(&format!("project:refkind:{}", ["registered", "project", "control", "control+original+extname"][r.kind as usize]));
